@@ -114,7 +114,16 @@ impl StopController {
                     let state2 = dfa.transition(state, b);
                     // println!("state: {:?} -{:?}-> {:?}", state, b as char, state2);
                     state = state2;
-                    assert!(!state.is_dead());
+                    if state.is_dead() {
+                        // the bytes so far are not valid UTF-8 (e.g. a token carrying a lone
+                        // continuation byte), which `(?s:.*)` cannot match; no stop sequence
+                        // can span them, so restart matching at this byte
+                        state = dfa.transition(rx.initial_state, b);
+                        if state.is_dead() {
+                            state = rx.initial_state;
+                            continue;
+                        }
+                    }
                     if state.has_lowest_match() {
                         self.is_stopped = true;
                         rx.state = state;
